@@ -6,13 +6,13 @@ from props import _xml
 
 PID = "C09"
 
-THEOREMS = ['XmlDiffModel.C09_insert_position_live', 'XmlDiffModel.C09_xpath_live_view', 'XmlDiffModel.C09_xpath_counts_live', 'XmlDiffModel.C10_join_keeps_both_texts', 'XmlDiffModel.C09_make_diff_tags_marks', 'XmlDiffModel.C09_text_update_accept', 'XmlDiffModel.C09_differ_script', 'XmlDiffModel.C09_accept_simulation', 'XmlDiffModel.C09_accept_simulation_no_moves', 'XmlDiffModel.C09_generated_paths_stepwise_unique']
-PARTIAL = {"C09": 'proved at tree level for all actions of the differ, moves included, formatter without text tags and without use_replace, tree before finalize (C09_accept_simulation; without moves with equal ids: C09_accept_simulation_no_moves): if the patcher accepts the script on the left document, every handler of the formatter succeeds and the accepted view of the tree they leave (nodes marked deleted dropped, diff: attributes removed, marked texts read with the insert wrappers opened and the delete wrappers dropped) is the patched tree up to a one-to-one renaming of node ids (the patcher does not depend on ids: applyUniq_equiv); for the scripts of the model differ on a clean left document and a right document of elements with fit texts these script-level assumptions are proved (C09_differ_script: paths stepwise unique on the tree they are resolved on, proper moves, no comment actions, attribute names outside the diff: namespace, fit texts), for arbitrary scripts they are hypotheses; assumed of the engine: each answer consumed spells the new text when accepted (C16). NOT proved: the accepted view after finalize at tree level (wrappers as elements: text level only, C09_text_update_accept), text tags, use_replace. Also proved: the lemmas it rests on (insert positions and addressing are those of the ghost-free view; join keeps the accept-text), and one text update end to end at text level: _make_diff_tags on the modelled diff_main + diff_cleanupSemantic of (old, new), texts free of private-use characters, no use_replace, any do_tree history on the maker - after undo_string (finalize) accepting every wrapper spells the new text (C09_text_update_accept, C09_make_diff_tags_marks). The property is decided per run by the accept-all projection of the real output compared with R (comments removed, whitespace-normalised when normalisation is on, modulo whitespace when pretty_print is on; flattened content of text tags when they are configured). Known findings X1 (text after a comment is lost in prepare) and X2 (tail of a deleted / moved node stays unmarked) are violations of the pinned code.'}
-LEAN_MODULES = ["XmlDiffModel.Props.C09", "XmlDiffModel.Props.C11"]
+THEOREMS = ['XmlDiffModel.C09_insert_position_live', 'XmlDiffModel.C09_xpath_live_view', 'XmlDiffModel.C09_xpath_counts_live', 'XmlDiffModel.C10_join_keeps_both_texts', 'XmlDiffModel.C09_make_diff_tags_marks', 'XmlDiffModel.C09_text_update_accept', 'XmlDiffModel.C09_differ_script', 'XmlDiffModel.C09_accept_simulation', 'XmlDiffModel.C09_accept_simulation_no_moves', 'XmlDiffModel.C09_generated_paths_stepwise_unique', 'XmlDiffModel.C09_differ_script_engine', 'XmlDiffModel.C09_C10_engine_run']
+PARTIAL = {"C09": 'proved at tree level for all actions of the differ, moves included, formatter without text tags and without use_replace, tree before finalize (C09_accept_simulation; without moves with equal ids: C09_accept_simulation_no_moves): if the patcher accepts the script on the left document, every handler of the formatter succeeds and the accepted view of the tree they leave (nodes marked deleted dropped, diff: attributes removed, marked texts read with the insert wrappers opened and the delete wrappers dropped) is the patched tree up to a one-to-one renaming of node ids (the patcher does not depend on ids: applyUniq_equiv); for the scripts of the model differ on a clean left document and a right document of elements with fit texts these script-level assumptions are proved (C09_differ_script: paths stepwise unique on the tree they are resolved on, proper moves, no comment actions, attribute names outside the diff: namespace, fit texts), for arbitrary scripts they are hypotheses; assumed of the engine in those two theorems: each answer consumed spells the new text when accepted (C16). With the engine model inside (runFmtE: each text handler runs on diff_main + diff_cleanupSemantic of the text the working tree holds against the new text, any diff_bisect behaviour, no WS_TEXT normalisation) this assumption is proved for differ scripts (C09_differ_script_engine; any script whose rename / text / tail actions hit pairwise different nodes: C09_C10_engine_run) from C17_each_node_changed_once through the invariant that a working-tree node is marked only if its patcher node was hit before; texts of at most 27000 characters. NOT proved: the accepted view after finalize at tree level (wrappers as elements: text level only, C09_text_update_accept), text tags, use_replace. Also proved: the lemmas it rests on (insert positions and addressing are those of the ghost-free view; join keeps the accept-text), and one text update end to end at text level: _make_diff_tags on the modelled diff_main + diff_cleanupSemantic of (old, new), texts free of private-use characters, no use_replace, any do_tree history on the maker - after undo_string (finalize) accepting every wrapper spells the new text (C09_text_update_accept, C09_make_diff_tags_marks). The property is decided per run by the accept-all projection of the real output compared with R (comments removed, whitespace-normalised when normalisation is on, modulo whitespace when pretty_print is on; flattened content of text tags when they are configured). Known findings X1 (text after a comment is lost in prepare) and X2 (tail of a deleted / moved node stays unmarked) are violations of the pinned code.'}
+LEAN_MODULES = ["XmlDiffModel.Props.C09", "XmlDiffModel.Props.C09E", "XmlDiffModel.Props.C11"]
 SOURCES = ['formatting.XMLFormatter', 'formatting.PlaceholderMaker', 'main.diff_trees']
-RULE = 'XML-formatter stream as C08, use_replace only with text_tags=(); oracle: accept-all projection of the real output (drop elements marked deleted and diff:delete wrappers, unwrap diff:insert / diff:replace and deleted-formatting elements, strip diff: attributes) equals the right document with comments removed. Mismatches that disappear when the text region after a deleted element is dropped too, or when text after comments is dropped from R, are classified as the known findings X2 / X1. U9 as C08.'
+RULE = 'XML-formatter stream as C08, use_replace only with text_tags=(); U10: the same cases with the engine model inside the formatter model (Acc.formatTreeE, diff_bisect split points recorded from the engine the formatter constructs, clock frozen) against the tree the real format() hands to render; U11: cleanup_whitespace(x).strip() vs Acc.wsNorm on strings over all Unicode whitespace characters and near misses; oracle: accept-all projection of the real output (drop elements marked deleted and diff:delete wrappers, unwrap diff:insert / diff:replace and deleted-formatting elements, strip diff: attributes) equals the right document with comments removed. Mismatches that disappear when the text region after a deleted element is dropped too, or when text after comments is dropped from R, are classified as the known findings X2 / X1. U9 as C08.'
 ASSUMPTIONS = [
-    "the character-level text diff of every text update (diff_main + diff_cleanupSemantic) is an input of the formatter model, recorded from the real engine; the engine itself is the subject of C16",
+    "U9: the character-level text diff of every text update (diff_main + diff_cleanupSemantic) is an input of the formatter model, recorded from the real engine; U10: it is computed by the engine model inside the formatter model, only the split points of diff_bisect are recorded (the theorems hold for every bisect behaviour); the engine itself is the subject of C16",
     "documents without private-use characters; namespace-free documents in the model",
 ]
 
